@@ -98,6 +98,45 @@ theorem normalizeRow_sum {l : List Rat} (h : ∀ x ∈ l, 0 ≤ x) :
     rw [rsum_map_div]
     exact div_self hs
 
+theorem rsum_eq_zero_iff {l : List Rat} (h : ∀ x ∈ l, 0 ≤ x) : rsum l = 0 ↔ ∀ x ∈ l, x = 0 := by
+  constructor
+  · intro hs x hx
+    by_contra hne
+    have hpos : 0 < x := lt_of_le_of_ne (h x hx) (Ne.symm hne)
+    have := rsum_pos_of_mem h hx hpos
+    linarith
+  · intro hz
+    induction l with
+    | nil => rfl
+    | cons y ys ih =>
+      simp only [rsum_cons]
+      rw [hz y (List.mem_cons_self ..), ih (fun z hz' => h z (List.mem_cons_of_mem _ hz'))
+        (fun z hz' => hz z (List.mem_cons_of_mem _ hz'))]
+      simp
+
+/-- a normalised non-negative row sums to 1 exactly when the row is not null, and to 0 when it is -/
+theorem normalizeRow_sum_one {l : List Rat} (h : ∀ x ∈ l, 0 ≤ x) (hne : rsum l ≠ 0) : rsum (normalizeRow l) = 1 := by
+  unfold normalizeRow
+  simp only
+  rw [map_rabs_of_nonneg h, if_neg hne, rsum_map_div]
+  exact div_self hne
+
+theorem normalizeRow_sum_zero {l : List Rat} (h : ∀ x ∈ l, 0 ≤ x) (hz : rsum l = 0) : rsum (normalizeRow l) = 0 := by
+  unfold normalizeRow
+  simp only
+  rw [map_rabs_of_nonneg h, if_pos hz]
+  exact hz
+
+theorem rowStrong_of {row : List Rat} (h : ∀ x ∈ row, 0 ≤ x) (reaches : Bool)
+    (h1 : reaches = true → rsum row = 1) (h0 : reaches = false → rsum row = 0) :
+    Spec.rowStrong 0 reaches row = true := by
+  unfold Spec.rowStrong
+  simp only [Bool.and_eq_true, List.all_eq_true, decide_eq_true_eq]
+  refine ⟨h, ?_⟩
+  cases reaches with
+  | true => simp [h1 rfl, rabs_zero]
+  | false => simp [h0 rfl, rabs_zero]
+
 theorem normalizeRow_length (l : List Rat) : (normalizeRow l).length = l.length := by
   unfold normalizeRow
   simp only
